@@ -706,6 +706,28 @@ impl<'a> VisitMut for Rw<'a> {
                         return;
                     }
                 }
+                // E15: X.iter().skip(K).all(CLOSURE)  ==>  iter_skip_all(X, K, CLOSURE)
+                if mc.method == "all" && mc.args.len() == 1 {
+                    let mut hit: Option<(Expr, Expr)> = None;
+                    if let Expr::MethodCall(sk) = &*mc.receiver {
+                        if sk.method == "skip" && sk.args.len() == 1 {
+                            if let Expr::MethodCall(it) = &*sk.receiver {
+                                if it.method == "iter" && it.args.is_empty() {
+                                    hit = Some(((*it.receiver).clone(), sk.args[0].clone()));
+                                }
+                            }
+                        }
+                    }
+                    if let Some((mut x, mut k)) = hit {
+                        self.bump("E15.iter_skip_all");
+                        self.visit_expr_mut(&mut x);
+                        self.visit_expr_mut(&mut k);
+                        let mut cl = mc.args[0].clone();
+                        self.visit_expr_mut(&mut cl);
+                        *e = Expr::Verbatim(quote!( iter_skip_all( #x , #k , #cl ) ));
+                        return;
+                    }
+                }
                 // E3: drop .as_ref() on byte-generic parameters
                 if mc.method == "as_ref" && mc.args.is_empty() {
                     if let Expr::Path(rp) = &*mc.receiver {
@@ -1286,6 +1308,9 @@ pub fn emit_fn(idx: &Index, fs: &FnSpec, tags: &[String], debug_view: bool, star
     let mut byte_generics = byte_generics_of(&sig.generics, false);
     let mut u8_generics = byte_generics_of(&sig.generics, true);
     for (id, ty) in &fs.insts {
+        if id.starts_with('R') && id.ends_with("__") {
+            continue; // E3e generic instantiated below
+        }
         if !sig.generics.type_params().any(|p| p.ident == id.as_str()) {
             die(&format!("lost anchor: type parameter `{}` of {} not found", id, fs.key));
         }
@@ -1346,11 +1371,22 @@ pub fn emit_fn(idx: &Index, fs: &FnSpec, tags: &[String], debug_view: bool, star
     // parameters
     let mut params: Vec<String> = vec![];
     let mut rng_gens: Vec<String> = vec![];
+    let mut rng_count = 0usize;
     let mut pre_lets: Vec<Stmt> = vec![];
     for inp in sig.inputs.iter_mut() {
         match inp {
             FnArg::Receiver(r) => {
-                params.push(r.to_token_stream().to_string().replace("& self", "&self").replace("& mut self", "&mut self"));
+                let mut rs = r.to_token_stream().to_string().replace("& self", "&self").replace("& mut self", "&mut self");
+                // E1: `impl Trait for &'a T { fn m(self, ..) }` becomes the inherent method `T::m(&self, ..)`
+                if let Owner::TraitImpl(..) = &src.owner {
+                    if let Some(h) = &src.impl_header {
+                        if h.2.trim_start().starts_with('&') && rs == "self" {
+                            rs = "&self".to_string();
+                            *rw.stats.entry("E1.ref_self_type".to_string()).or_insert(0) += 1;
+                        }
+                    }
+                }
+                params.push(rs);
             }
             FnArg::Typed(pt) => {
                 // remember byte-generic parameters before the type is rewritten
@@ -1369,9 +1405,17 @@ pub fn emit_fn(idx: &Index, fs: &FnSpec, tags: &[String], debug_view: bool, star
                 if let Type::ImplTrait(it) = &*pt.ty {
                     let t = it.to_token_stream().to_string();
                     if t.contains("RngCore") || t.contains("CryptoRng") {
-                        let gname = format!("R{}__", rng_gens.len());
-                        rng_gens.push(format!("{}: RngArg", gname));
-                        *pt.ty = parse_ty(&gname);
+                        let gname = format!("R{}__", rng_count);
+                        rng_count += 1;
+                        if let Some((_, ty)) = fs.insts.iter().find(|(id, _)| *id == gname) {
+                            // E3c on an E3e generic: the caller's generator type is fixed (map/collect
+                            // specifications are lost inside generic functions)
+                            *pt.ty = parse_ty(ty);
+                            *rw.stats.entry("E3c.instantiated".to_string()).or_insert(0) += 1;
+                        } else {
+                            rng_gens.push(format!("{}: RngArg", gname));
+                            *pt.ty = parse_ty(&gname);
+                        }
                         *rw.stats.entry("E3e.rng_generic".to_string()).or_insert(0) += 1;
                     }
                 }
@@ -1475,6 +1519,16 @@ pub fn emit_fn(idx: &Index, fs: &FnSpec, tags: &[String], debug_view: bool, star
         }
     }
     gens.extend(rng_gens.iter().cloned());
+    // E1: lifetimes of the impl header move to the flattened method
+    if conv_impl.is_none() {
+        if let (Owner::TraitImpl(..), Some(h)) = (&src.owner, &src.impl_header) {
+            if sig.receiver().is_some() && !h.0.trim().is_empty() {
+                let mut l: Vec<String> = h.0.split(',').map(|x| x.trim().to_string()).filter(|x| !x.is_empty()).collect();
+                l.extend(gens.drain(..));
+                gens = l;
+            }
+        }
+    }
     let out_name = fs.out_name.clone().unwrap_or(out_default);
     let mut s = String::new();
     let mut clause_lines: Vec<serde_json::Value> = vec![];
